@@ -140,6 +140,11 @@ def execute(ctx, cases, corr):
     by = {}
     for c in cases:
         by.setdefault((c.cfg, c.feats), []).append(c)
+    if len(by) > 2:
+        # several configurations (thorough tier / search mode): build the harnesses side by side
+        from concurrent.futures import ThreadPoolExecutor
+        with ThreadPoolExecutor(max_workers=8) as ex:
+            list(ex.map(lambda k: ctx.pl.build_harness(k[0], k[1]), sorted(by)))
     for (cfg, feats), cs in sorted(by.items()):
         exe = ctx.pl.build_harness(cfg, feats)
         if exe is None:
